@@ -12,12 +12,20 @@
    C01_tables_inverse); out-of-range coordinates absent / panicking and never aliasing, for
    coordinates of ANY size and in both build profiles (C01_oob_never_aliases,
    C01_panicking_accessors, C01_access_index_machine); constructors (the C01_ctor_ and C01_from_fn_ theorems).
+   Conversions (third wave; Model/Transform.v tensor_into_matrix / matrix_into_tensor,
+   Model/C01Conv.v, Proofs/C01ConvP.v): Tensor<T,2> -> Matrix keeps every element at its
+   (row, column) (C01_tensor_into_matrix_elements); Matrix -> Tensor<T,2> succeeds exactly for
+   distinct names, keeps every element, and its error value is the would-be shape
+   (C01_matrix_into_tensor_spec); both round trips are the identity (C01_conversion_round_trips);
+   the interop wrappers read / write exactly the addressed element (C01_interop_wrappers).
    Carried by the correspondence only: that shared / mutable / owned access and Clone /
    non-Clone element types are the same function (harness cross-checks, one model function),
-   and the const-generic instances D = 0..6. *)
+   the const-generic instances D = 0..6, and that the trait forms (From / Into / TryFrom /
+   try_into) and the shared / owned / mutable wrapper sources agree (harness codes 14xx). *)
 From Coq Require Import List ZArith NArith Bool Arith Permutation.
 From EasyML Require Import Base.Sx Model.Shape Model.Tensor Model.TensorFn Model.U64
-     Model.Fallible Model.Transform Proofs.ShapeP Proofs.C01P Proofs.C01FnP.
+     Model.Fallible Model.Transform Model.C01Conv Proofs.ShapeP Proofs.C01P Proofs.C01FnP
+     Proofs.C01ConvP.
 Import ListNotations.
 Open Scope N_scope.
 
@@ -180,6 +188,75 @@ Theorem C01_access_index_machine : forall A (m : mode) sh (data : list A) t req 
   Ok (get_index_direct (map_dimensions_to_source (a_tbl a) idx 0) (t_strides t) (t_shape t)).
 Proof. exact @access_index_machine. Qed.
 
+(* ---- conversions between 2-D tensors and matrices (a matrix is (rows, columns, row-major
+   data); mat_get is Matrix::try_get_reference) ---- *)
+
+(* From<Tensor<T, 2>> for Matrix<T> / Tensor::into_matrix on any tensor a validating constructor
+   accepts: succeeds (whenever the element count is a usize - always so for a real Vec), the
+   result is (first length, second length, the same data), and the matrix element at (i, j) IS
+   the tensor element at [i; j] for EVERY i, j (absent together outside), namely
+   data[i * columns + j] *)
+Theorem C01_tensor_into_matrix_elements : forall A (t : tensor A) a r b c,
+  tensor_inv t -> t_shape t = [(a, r); (b, c)] ->
+  (r * c <= usize_max -> tensor_into_matrix t = Ok (r, c, t_data t)) /\
+  (forall m, tensor_into_matrix t = Ok m -> m = (r, c, t_data t)) /\
+  (forall i j, mat_get (r, c, t_data t) i j = t_get t [i; j]) /\
+  (forall i j, i < r -> j < c ->
+     t_get t [i; j] = nth_error (t_data t) (N.to_nat (i * c + j))) /\
+  (forall i j, ~ (i < r /\ j < c) -> t_get t [i; j] = None).
+Proof. exact @into_matrix_spec. Qed.
+
+(* TryFrom<(Matrix<T>, [Dimension; 2])> for Tensor<T, 2> / Matrix::into_tensor on any matrix
+   (rows * columns = number of elements > 0): Ok exactly when the two names differ; the tensor
+   satisfies the invariant, has shape [(rn, rows); (cn, columns)], the same data, and reads the
+   matrix element at every [i; j]; for equal names the error value is exactly that shape *)
+Theorem C01_matrix_into_tensor_spec : forall A r c (d : list A) rn cn,
+  r * c = N.of_nat (length d) -> 0 < r * c -> r * c <= usize_max ->
+  (rn <> cn ->
+     exists t, matrix_into_tensor r c d rn cn = Ok t /\ tensor_inv t /\
+               t_shape t = [(rn, r); (cn, c)] /\ t_data t = d /\
+               (forall i j, t_get t [i; j] = mat_get (r, c, d) i j) /\
+               (forall i j, i < r -> j < c ->
+                  t_get t [i; j] = nth_error d (N.to_nat (i * c + j)))) /\
+  (rn = cn -> matrix_into_tensor r c d rn cn = Err (sshape [(rn, r); (cn, c)])) /\
+  ((exists t, matrix_into_tensor r c d rn cn = Ok t) <-> rn <> cn).
+Proof. exact @into_tensor_spec. Qed.
+
+(* both round trips are the identity: matrix -> tensor -> matrix on (rows, columns, data), and
+   tensor -> matrix -> tensor (with the tensor's own two names) on the whole tensor *)
+Theorem C01_conversion_round_trips : forall A,
+  (forall r c (d : list A) rn cn t,
+     r * c = N.of_nat (length d) -> 0 < r * c -> r * c <= usize_max ->
+     matrix_into_tensor r c d rn cn = Ok t -> tensor_into_matrix t = Ok (r, c, d)) /\
+  (forall (t : tensor A) a r b c m,
+     tensor_inv t -> t_shape t = [(a, r); (b, c)] -> tensor_into_matrix t = Ok m ->
+     m = (r, c, t_data t) /\ matrix_into_tensor r c (t_data t) a b = Ok t).
+Proof. intros A. split; [exact (@matrix_tensor_matrix A)|exact (@tensor_matrix_tensor A)]. Qed.
+
+(* the interop wrappers: TensorRefMatrix::with_names over a matrix is Ok exactly for distinct
+   names (error value = the would-be shape), reports [(rn, rows); (cn, columns)] and reads the
+   matrix element at every [i; j]; a write through its mutable face (= Matrix::
+   try_get_reference_mut) changes exactly the addressed element and is absent outside.
+   MatrixRefTensor's getters are the tensor's own at [row; column] by definition (mrt_get), so
+   C01_tensor_into_matrix_elements / C01_set_exact speak about them directly *)
+Theorem C01_interop_wrappers : forall A r c (d : list A) rn cn,
+  0 < r -> 0 < c -> r * c = N.of_nat (length d) ->
+  (rn <> cn -> exists w, trm_with_names (r, c, d) rn cn = Ok w /\
+      trm_shape w = [(rn, r); (cn, c)] /\
+      forall i j, trm_get w [i; j] = mat_get (r, c, d) i j) /\
+  (rn = cn -> trm_with_names (r, c, d) rn cn = Err (sshape [(rn, r); (cn, c)])) /\
+  (forall i j v, i < r /\ j < c ->
+     exists d', mat_set (r, c, d) i j v = Some (r, c, d') /\
+       forall i' j', mat_get (r, c, d') i' j' =
+         if (i' =? i) && (j' =? j) then Some v else mat_get (r, c, d) i' j') /\
+  (forall i j v, ~ (i < r /\ j < c) -> mat_set (r, c, d) i j v = None).
+Proof.
+  intros A r c d rn cn Hr Hc Hlen. destruct (trm_spec r c d rn cn Hr Hc) as [H1 H2].
+  split; [exact H1|]. split; [exact H2|].
+  split; intros i j v; [exact (proj1 (mat_set_exact r c d i j v Hlen))
+                       |exact (proj2 (mat_set_exact r c d i j v Hlen))].
+Qed.
+
 (* non-vacuity: a 2x3x2 tensor addressed in the cyclic (non-involutive) order [c; a; b] meets
    every hypothesis, and index [1;0;2] (c=1, a=0, b=2) reads storage position 0*6+2*2+1 = 5 *)
 Example C01_nonvacuous :
@@ -205,6 +282,27 @@ Example C01_nonvacuous_from_fn :
     access_index_m Debug a [0; 9223372036854775808; 0] = Ok None.
 Proof. do 2 eexists. repeat (split; [vm_compute; reflexivity|]). vm_compute; reflexivity. Qed.
 
+(* conversions: the 2 x 3 matrix 0..5 becomes the tensor [(0, 2); (1, 3)] whose element [1; 2]
+   is 5, which converts back to the same matrix; equal names give the shape as the error *)
+Example C01_nonvacuous_conversions :
+  exists t,
+    matrix_into_tensor 2 3 (map Z.of_nat (seq 0 6)) 0%nat 1%nat = Ok t /\ tensor_inv t /\
+    t_get t [1; 2] = Some 5%Z /\ t_get t [2; 0] = None /\ t_get t [0; 3] = None /\
+    tensor_into_matrix t = Ok (2, 3, map Z.of_nat (seq 0 6)) /\
+    mat_get (2, 3, map Z.of_nat (seq 0 6)) 1 2 = Some 5%Z /\
+    matrix_into_tensor 2 3 (map Z.of_nat (seq 0 6)) 4%nat 4%nat
+      = Err (sshape [(4%nat, 2); (4%nat, 3)]) /\
+    (2 * 3 = N.of_nat (length (map Z.of_nat (seq 0 6))) /\ 0 < 2 * 3 /\ 2 * 3 <= usize_max).
+Proof.
+  destruct (into_tensor_spec 2 3 (map Z.of_nat (seq 0 6)) 0%nat 1%nat) as [Hok _];
+    [reflexivity|reflexivity|discriminate|].
+  destruct (Hok ltac:(discriminate)) as [t [Ht [Hinv _]]]. exists t.
+  split; [exact Ht|]. split; [exact Hinv|].
+  vm_compute in Ht. injection Ht as <-.
+  repeat (split; [vm_compute; reflexivity|]).
+  repeat split; try reflexivity; discriminate.
+Qed.
+
 Print Assumptions C01_new_iff_perm.
 Print Assumptions C01_non_permutation_rejected.
 Print Assumptions C01_tables_inverse.
@@ -225,3 +323,7 @@ Print Assumptions C01_from_fn_get_by_name.
 Print Assumptions C01_source_order_is_own_names.
 Print Assumptions C01_panicking_accessors.
 Print Assumptions C01_access_index_machine.
+Print Assumptions C01_tensor_into_matrix_elements.
+Print Assumptions C01_matrix_into_tensor_spec.
+Print Assumptions C01_conversion_round_trips.
+Print Assumptions C01_interop_wrappers.
